@@ -100,6 +100,7 @@ var c01Snippets = []struct{ name, code string }{
 	{"strconv-edge", "\tv1, e1 := strconv.ParseInt(\"-80000000\", 16, 32)\n\tv2, e2 := strconv.ParseInt(\"zz\", 36, 32)\n\tv3, e3 := strconv.ParseInt(\"12a\", 10, 32)\n\tv4, e4 := strconv.ParseFloat(\"1e3\", 64)\n\tv5, e5 := strconv.ParseFloat(\"-.5\", 64)\n\t_, e6 := strconv.ParseFloat(\"x\", 64)\n\tfmt.Println(v1, e1 == nil, v2, e2 == nil, v3, e3 == nil, v4, e4 == nil, v5, e5 == nil, e6 == nil)\n\tfmt.Println(strconv.Itoa(-2147483648), strconv.Itoa(0), strconv.FormatInt(-255, 16), strconv.FormatInt(35, 36), strconv.FormatInt(-8, 2), strconv.FormatFloat(1.5, 'f', 2, 64), strconv.FormatFloat(1e21, 'g', -1, 64), strconv.FormatFloat(0.000001, 'e', 3, 64), strconv.FormatFloat(2.5, 'f', 0, 64))\n"},
 	{"math-edge", "\tz := f - f\n\tfmt.Println(math.Mod(-7, 3), math.Mod(7, -3), math.Mod(5.5, 2), math.Pow(2, 10), math.Pow(2, -1), math.Pow(0, 0), math.Round(2.5), math.Round(-2.5), math.Round(0.49999999999999994), math.Floor(-0.5), math.Ceil(-0.5), math.Abs(-1.5), math.Signbit(-2.5), math.Signbit(z), math.Hypot(3, 4), math.Sqrt(2) > 1.41, math.Max(3, 7), math.Min(3, 7), math.Log(1), math.Atan(0))\n"},
 	{"sprintf-edge", "\tfmt.Println(fmt.Sprintf(\"%5d|%-5d|%05d|%x|%X|%c|%q|%v|%s|%t|%%\", 42, 42, 42, 255, 255, 65, \"hi\", 3, \"s\", true), fmt.Sprintf(\"%6.2f|%.0f|%e|%g|%8.3f\", 3.14159, 2.5, 1234.5678, 1e21, -1.5), fmt.Sprintf(\"%d %s\", 1, \"a\") + fmt.Sprintf(\"%v\", []int{1, 2}))\n"},
+	{"range-invalid-utf8", "\tfor _, s := range []string{\"a\\xffb\", \"x\\xc3\\xa9!\"[2:], \"\\xc0\\xafz\", \"é\\xe4\\xb8z\"} {\n\t\tfor i, r := range s {\n\t\t\tfmt.Println(i, r, s[i], len(s))\n\t\t\tacc += i\n\t\t}\n\t}\n"},
 	{"float-conv", "\th := float64(a)/2 + 0.25\n\tfmt.Println(\"h\", h, int(math.Floor(h)), float64(c)*1.5)\n"},
 }
 
